@@ -201,13 +201,22 @@ def run_fit(ctx, res, seed):
     configs = [('scheduled-reversed', lambda: ScheduledExecutor(lambda n: list(reversed(range(n))))),
                ('scheduled-random', lambda: ScheduledExecutor(lambda n: rng.sample(range(n), n))),
                ('threads-4', lambda: ThreadPoolExecutor(max_workers=4))]
+    # truly overlapping threads: many workers and a tiny interpreter switch interval, so that tasks of one batch interleave at
+    # the byte-code level (shared mutable state touched by concurrent tasks shows up here, not with serialised schedules)
+    configs += [('threads-8-interleaved-a', lambda: ThreadPoolExecutor(max_workers=8)),
+                ('threads-8-interleaved-b', lambda: ThreadPoolExecutor(max_workers=8))]
     if not ctx.quick:
         configs.append(('processes-3', lambda: ProcessPoolExecutor(max_workers=3)))
     for name, mk in configs:
         ex = mk()
+        import sys as _sys
+        old_switch = _sys.getswitchinterval()
         try:
-            got = train(seed, ex, steps, delay=0.002 if 'threads' in name or 'process' in name else 0.0)
+            if 'interleaved' in name:
+                _sys.setswitchinterval(1e-6)
+            got = train(seed, ex, steps, delay=0.0 if 'interleaved' in name else (0.002 if 'threads' in name or 'process' in name else 0.0))
         finally:
+            _sys.setswitchinterval(old_switch)
             if hasattr(ex, 'shutdown'):
                 ex.shutdown(wait=True)
         if got != ref:
